@@ -38,6 +38,9 @@ type isoSpec struct {
 	// MaxRSS: a worker whose resident set exceeds this is killed ("oom": inconclusive, a length-field bomb
 	// must not take the machine down).
 	MaxRSS int64
+	// ExtraEnv, if set, is evaluated in the parent at every worker (re)start; its strings are added to the
+	// worker's environment (C06: formats whose forced cases are skipped after repeated fatal deaths).
+	ExtraEnv func() []string
 }
 
 func rssBytes(pid int) int64 {
@@ -110,6 +113,9 @@ func isoRun(run *ev.Run, spec isoSpec) {
 					"GOMEMLIMIT=3GiB",
 					"GOMAXPROCS=2",
 				)
+				if spec.ExtraEnv != nil {
+					cmd.Env = append(cmd.Env, spec.ExtraEnv()...)
+				}
 				var stderr bytes.Buffer
 				cmd.Stderr = &limitedWriter{buf: &stderr, max: 1 << 20}
 				stdout, _ := cmd.StdoutPipe()
